@@ -508,7 +508,12 @@ func (z *ZodMap[T, R]) validateDirect(value, schema any, ctx *core.ParseContext)
 		return nil
 	}
 
-	args := []reflect.Value{reflect.ValueOf(value)}
+	arg := reflect.ValueOf(value)
+	if !arg.IsValid() {
+		// A nil interface has no reflect.Value; pass the zero value of the parameter type instead.
+		arg = reflect.Zero(mt.In(0))
+	}
+	args := []reflect.Value{arg}
 	if acceptsParseContext(mt) {
 		args = append(args, reflect.ValueOf(ctx))
 	}
